@@ -22,6 +22,9 @@ def extra_checks(ft, tier, seed):
                                "composition of the per-function contracts through the public API (A-META on the class corpus; "
                                "update/transform/element helpers/chains not under contract here)",
                                "4 corpus classes (plain, frozen twin, spec subclass, plain subclass) x 5 reachable states x ~87 helper calls with valid and invalid arguments"))
+    out.append(harness.standin('standin.merge-content', 'bounded/c05_prepare.py', ["--standin", "-", os.path.join(harness.VERIF, "replays", PROPERTY)],
+                               'content of keyword merges (update / update_<a> / with_<a>(v, **kw) / transform): preparers, dict-to-nested-spec, collection preparation - the proofs of mutate_value carry frame and identity clauses only',
+                               '8 merges against the single-attribute routes on a class with preparers and a nested spec'))
     for f in FINDINGS:
         r = harness.run_json("bounded/spec.py", ["--finding", f])
         if r.get("reproduces"):
